@@ -59,7 +59,7 @@ class DiagnosticCollector:
         t : float
             The current time
         """
-        ti = t//self.dt
+        ti = int(round(t/self.dt))
         idx = ti % self.saveStep
 
         self.diagnostics[0, idx] = t
